@@ -23,7 +23,24 @@ GEN_THEOREMS = [
     "Cv.C16g.globe_puzzle_create_zero",
     "Cv.C16g.globe_puzzle_create",
 ]
-GEN_THEOREMS_RINGS = []
+GEN_THEOREMS_RINGS = [
+    "Cv.Props.C16r.adm_of_admissible",
+    "Cv.Props.C16r.circular_shift_gen",
+    "Cv.Props.C16r.create_right_ring_gen_adm",
+    "Cv.Props.C16r.create_right_ring_gen",
+    "Cv.Props.C16r.hungarian_rings_permutations_step",
+    "Cv.Props.C16r.hungarian_rings_permutations_forth_adm",
+    "Cv.Props.C16r.hungarian_rings_permutations_forth",
+    "Cv.Props.C16r.hungarian_rings_permutations_back_adm",
+    "Cv.Props.C16r.hungarian_rings_permutations_back",
+    "Cv.Props.C16r.hungarian_rings_generators_gen_adm",
+    "Cv.Props.C16r.hungarian_rings_generators_gen",
+    "Cv.Props.C16r.hungarian_rings_generators_reject_small",
+    "Cv.Props.C16r.hungarian_rings_generators_reject_index",
+    "Cv.Props.C16r.hungarian_rings_generators_reject_neg",
+    "Cv.Props.C16r.hungarian_rings_generators_reject_mixed",
+    "Cv.Props.C16r.hungarian_rings_generators_isSome_iff",
+]
 
 THEOREMS = [
     "Cv.C16.fromCycles_toCycles",
